@@ -662,6 +662,9 @@ from ..selftest import V  # noqa: E402
 
 EIGF, AMNF, MMNF = W90 + "eig.py", W90 + "amn.py", W90 + "mmn.py"
 SELFTEST = [
+    V("to_npz drops requested names missing from the class table (seeded C19-m8)", W90 + "wandata.py",
+      "        if files is None:\n            files = self._files.keys()\n        for f in files:\n            if f in self._files:",
+      "        if files is None:\n            files = self._files.keys()\n        for f in files:\n            if f.lower() not in FILES_CLASSES:\n                continue\n            if f in self._files:", "fire", "R19.4"),
     V("irreducible flag recomputed per file (seeded C19-m6)", W90 + "wandata.py",
       "            if nkeys < NK:\n", "            irreducible = nkeys < NK\n            if nkeys < NK:\n", "fire", "R19.4"),
     V("EIG writer uses the Fortran layout without separators (seeded C19-m4)", W90 + "eig.py", 'file.write(f" {ib + 1:4d} {ik + 1:4d} {self.data[ik][ib]:17.12f}\\n")',
